@@ -13,7 +13,7 @@ import warnings
 import numpy as np
 from hypothesis import strategies as st
 
-from vt.core import Violation
+from vt.core import Reject, Violation
 from vt.gen import catalog as G
 
 ID = 'C03'
@@ -58,13 +58,14 @@ def _desc(draw, tier):
         o['style'] = draw(st.sampled_from(['id', 'callorder']))
     elif layout == 'lc':
         o['fields'] = draw(st.sampled_from(['default', 'lcN']))
-        o['style'] = draw(st.sampled_from(['N', 'callorder']))
+        o['style'] = draw(st.sampled_from(['N', 'callorder', 'value']))
     else:
         o['fields'] = draw(st.sampled_from(['idN', 'idN', 'id', 'N', 'noid', 'default', 'allfields', 'prog']))
         if o['fields'] == 'prog' and not o['cleaned']:
             o['fields'] = 'allfields'
-        o['style'] = {'idN': draw(st.sampled_from(['id', 'N', 'positional'])), 'id': 'id', 'N': 'N', 'noid': draw(st.sampled_from(['callorder', 'positional'])), 'default': draw(st.sampled_from(['id', 'N', 'callorder', 'positional'])),
-                      'allfields': draw(st.sampled_from(['id', 'N', 'callorder'])), 'prog': draw(st.sampled_from(['id', 'N']))}[o['fields']]
+        o['style'] = {'idN': draw(st.sampled_from(['id', 'N', 'positional', 'value'])), 'id': draw(st.sampled_from(['id', 'value'])), 'N': draw(st.sampled_from(['N', 'value'])), 'noid': draw(st.sampled_from(['callorder', 'positional', 'value'])),
+                      'default': draw(st.sampled_from(['id', 'N', 'callorder', 'positional', 'value'])),
+                      'allfields': draw(st.sampled_from(['id', 'N', 'callorder', 'value'])), 'prog': draw(st.sampled_from(['id', 'N']))}[o['fields']]
     masks = []
     for p in o['files']:
         nh = len(cat['slabs'][p]['halos'])
@@ -130,7 +131,7 @@ def nontrivial(d):
     counts = [len(cat['slabs'][p]['halos']) for p in o['files']]
     if sum(1 for c in counts if c >= 1) >= 2:
         return True
-    if o['style'] in ('N', 'positional'):
+    if o['style'] in ('N', 'positional', 'value'):
         return sum(counts) >= 2
     flatm = [m for ms in o['masks'] for m in ms]
     flato = [x for xs in _owned_counts(cat, o) for x in xs]
@@ -148,7 +149,7 @@ def classes(d):
     flatm = [m for ms in o['masks'] for m in ms]
     if o.get('big'):
         c.append('large-superslab')
-    if o['style'] not in ('N', 'positional'):
+    if o['style'] not in ('N', 'positional', 'value'):
         c.append('mask=' + ('empty-table' if not flatm else 'keep-none' if not any(flatm) else 'keep-all' if all(flatm) else 'partial'))
     if o['passthrough']:
         c.append('passthrough')
@@ -366,6 +367,24 @@ def _check(cat, cdesc, o, CompaSOHaloCatalog):
 
         def ff(h):
             return np.isin(np.asarray(h['id']), keep)
+    elif style == 'value':
+        # a cut on the magnitude of a unit-converted column (a sub-volume, a radius or a velocity cut): the filter must see the
+        # values the table will hold, so that it keeps exactly the rows the same cut keeps on the unfiltered load
+        cand = [c for c in ('x_com', 'x_L2com', 'r50_com', 'r100_com', 'v_com', 'r100_L2com', 'SO_radius', 'sigmav3d_com', 'vcirc_max_com') if c in cu.halos.colnames]
+        if not cand:
+            raise Reject('no unit-converted column among the requested fields')
+        vcol = cand[o['thr_rank'] % len(cand)]
+
+        def scal(h):
+            a = np.asarray(h[vcol], dtype=np.float64)
+            return a[:, (o['thr_rank'] // 3) % 3] if a.ndim == 2 else a
+
+        sv = scal(cu.halos)
+        thr = float(np.sort(sv)[min(o['thr_rank'], len(sv) - 1)]) if len(sv) else 0.0
+        expmask = sv >= thr
+
+        def ff(h):
+            return scal(h) >= thr
     elif style == 'positional':
         # a filter that depends on the position of a row within its superslab (like "every third halo" or a per-superslab
         # quantile): it must be applied to each superslab as a whole
